@@ -39,17 +39,44 @@ def ct_ds(k=1):
 
 
 class Raiser:
-    """A notification handler that raises at chosen invocations (C26)."""
+    """A notification handler that raises at chosen invocations (C26).  Flavours of raising handler:
+    plain   - an ordinary function raising RuntimeError("text")
+    noname  - a callable object (no __name__), e.g. an instance with __call__ or a functools.partial
+    noargs  - raises an exception constructed without arguments (exc.args == ())
+    strfail - raises an exception whose __str__ itself raises"""
 
-    def __init__(self, which):
-        self.which, self.n, self.lock = which, 0, threading.Lock()
+    def __init__(self, which, flavour="noname", event_name=""):
+        self.which, self.n, self.lock, self.flavour, self.event_name = which, 0, threading.Lock(), flavour, event_name
 
-    def __call__(self, event):
+    def fire(self):
         with self.lock:
             self.n += 1
             n = self.n
-        if self.which == "all" or (self.which and n in self.which):
+        w = self.which
+        if w == "all" or (isinstance(w, (set, list, tuple)) and (n in w or self.event_name in w)):
+            if self.flavour == "noargs":
+                raise ValueError()
+            if self.flavour == "strfail":
+                class Odd(Exception):
+                    def __str__(self):
+                        raise TypeError("no text")
+                raise Odd()
             raise RuntimeError(f"notification handler failure #{n}")
+
+    def __call__(self, event):
+        self.fire()
+
+
+def make_raiser(which, flavour, event_name):
+    r = Raiser(which, flavour, event_name)
+    if flavour == "plain":
+        def handler(event):
+            r.fire()
+        return r, handler
+    if flavour == "partial":
+        import functools
+        return r, functools.partial(lambda rr, event: rr.fire(), r)
+    return r, r
 
 
 def run_scenario(sc, timeout=1.0):
@@ -104,16 +131,20 @@ def run_scenario(sc, timeout=1.0):
     rq_hs = [(evt.EVT_C_STORE, on_store)]
     raisers = []
     if sc.get("raises") is not None:
+        # notification handlers bound on both sides for every notification event; they raise where the scenario says
+        # ("none": bound but quiet - the reference run)
+        which = sc["raises"].get("events", "all")
+        which = set() if which == "none" else which
         for e in NOTIFICATIONS:
-            ra, rb = Raiser(sc["raises"]), Raiser(sc["raises"])
-            raisers += [ra, rb]
-            hs.append((e, ra))
-            rq_hs.append((e, rb))
+            for lst in (hs, rq_hs):
+                r, h = make_raiser(which, sc["raises"].get("flavour", "noname"), e.name)
+                raisers.append(r)
+                lst.append((e, h))
     server = scp.start_server(("127.0.0.1", 0), block=False, evt_handlers=hs)
     port = server.socket.getsockname()[1]
     scu = AE("REQUESTOR")
     scu.acse_timeout = scu.dimse_timeout = scu.network_timeout = timeout
-    for uid in (VERIF_UID, CT, FIND, GET):
+    for uid in ((VERIF_UID, CT, FIND, GET) if sc.get("reject") != "nocx" else ("1.2.840.10008.5.1.4.1.1.4",)):      # nocx: nothing the acceptor supports
         scu.add_requested_context(uid)
     results = []
     side_done = threading.Event()
@@ -124,10 +155,19 @@ def run_scenario(sc, timeout=1.0):
         if sc.get("reject") == "limit":
             first = scu.associate("127.0.0.1", port, ae_title="ACCEPTOR")
             acc_assocs.clear()
-        assoc = scu.associate("127.0.0.1", port, ae_title="WRONG" if sc.get("reject") == "aet" or sc.get("reject") is True else "ACCEPTOR",
-                              ext_neg=[build_role(CT, scu_role=True, scp_role=True)], evt_handlers=rq_hs)
+        try:
+            assoc = scu.associate("127.0.0.1", port, ae_title="WRONG" if sc.get("reject") == "aet" or sc.get("reject") is True else "ACCEPTOR",
+                                  ext_neg=[build_role(CT, scu_role=True, scp_role=True)] if sc.get("reject") != "nocx" else None, evt_handlers=rq_hs)
+        except Exception as e:  # noqa: BLE001   an exception out of AE.associate() is an observation (C26), not a harness failure
+            results.append(("associate_exc", f"{type(e).__name__}: {e}"[:100]))
+            assoc = next((t for t in threading.enumerate() if type(t).__name__ == "Association" and getattr(t, "ae", None) is scu), None) or \
+                next((t.assoc for t in threading.enumerate() if type(t).__name__ == "DULServiceProvider" and getattr(getattr(t, "assoc", None), "ae", None) is scu), None)
         side = sc.get("side")
-        if side and assoc.is_established:
+        if assoc is None:
+            class _Gone:          # AE.associate() raised before an association object could be found
+                is_established = is_released = is_aborted = is_rejected = False
+            assoc = None
+        if side and assoc is not None and assoc.is_established:
             def do_side():
                 time.sleep(side[1])
                 try:
@@ -141,7 +181,7 @@ def run_scenario(sc, timeout=1.0):
                     side_done.set()
             side_thread = threading.Thread(target=do_side, name="SideThread", daemon=True)
             side_thread.start()
-        if assoc.is_established:
+        if assoc is not None and assoc.is_established:
             for op in sc.get("ops", []):
                 mark(assoc, op)
                 try:
@@ -177,6 +217,8 @@ def run_scenario(sc, timeout=1.0):
             side_done.wait(5)
         # termination: both association threads and both provider threads end within the deadline
         deadline = time.time() + 4 * timeout + 2.0
+        if any(r[0] == "associate_exc" for r in results):
+            deadline = time.time() + 0.5      # AE.associate() itself raised: whatever it left behind is not going to end by itself
         acc = acc_assocs[-1] if acc_assocs else None
 
         def alive(a):
@@ -202,6 +244,14 @@ def run_scenario(sc, timeout=1.0):
                 "elapsed": round(t_end - t_start, 3), "in_time": not (alive(assoc) or alive(acc)), "rid": getattr(assoc, "_verif_uid", 0), "aid": getattr(acc, "_verif_uid", 0) if acc is not None else 0,
                 "raiser_calls": sum(r.n for r in raisers)}
     finally:
+        if any(r[0] == "associate_exc" for r in results):
+            for a in (assoc, acc_assocs[-1] if acc_assocs else None):      # free what a failed associate() left running
+                try:
+                    if a is not None:
+                        a._kill = True
+                        a.dul._kill_thread = True
+                except Exception:  # noqa: BLE001
+                    pass
         try:
             if first is not None and first.is_established:
                 first.release()
